@@ -1,6 +1,7 @@
 // Component "pending" (property C01): every call gets exactly one answer, and it is its own.
 //
-//	(i)   key functions: Go's fmt.Sprintf("%v", …) of int64 / decoded float64 / string ids, stdio's int64(float64) and the
+//	(i)   key functions: the library's requestIDKey (through a hook) and Go's fmt.Sprintf("%v", …) of int64 / decoded float64 /
+//	      string ids, stdio's int64(float64) and the
 //	      servers' uint64(float64) conversions, the JSON echo of an id — against the Lean model on a boundary grid + random ids;
 //	(ii)  real runs: N concurrent callers x M calls on the three REAL clients (Streamable JSON and SSE answers, stateful and
 //	      stateless; legacy SSE; stdio against a child process) with the request counter advanced through a hook, each call
@@ -20,6 +21,8 @@ import (
 	"strconv"
 
 	"verif/harness/hk"
+
+	mcp "trpc.group/trpc-go/trpc-mcp-go"
 )
 
 func main() {
@@ -98,6 +101,7 @@ func keyGrid(c *hk.Ctx) {
 		// request side: the id is an int64 held in an interface{}
 		if n.IsInt64() {
 			i := n.Int64()
+			c.Emit(map[string]any{"c": "pending.key", "kind": "idKey", "side": "req", "id": idJSON(n)}, map[string]any{"key": mcp.VerifRequestIDKey(i)}, boundary, "key-req-idKey")
 			c.Emit(map[string]any{"c": "pending.key", "kind": "sprintfV", "side": "req", "id": idJSON(n)}, map[string]any{"key": fmt.Sprintf("%v", interface{}(i))}, boundary, "key-req-sprintfV")
 			c.Emit(map[string]any{"c": "pending.key", "kind": "int64", "side": "req", "id": idJSON(n)}, map[string]any{"key": strconv.FormatInt(i, 10)}, boundary, "key-req-int64")
 			c.Emit(map[string]any{"c": "pending.key", "kind": "uint64", "side": "req", "id": idJSON(n)}, map[string]any{"key": strconv.FormatUint(uint64(i), 10)}, boundary, "key-req-uint64")
@@ -109,6 +113,10 @@ func keyGrid(c *hk.Ctx) {
 		}
 		if abs.Cmp(two53) <= 0 {
 			c.Emit(map[string]any{"c": "pending.key", "kind": "sprintfV", "side": "wire", "id": idJSON(n)}, map[string]any{"key": fmt.Sprintf("%v", interface{}(f))}, boundary, "key-wire-sprintfV")
+		}
+		if f >= -(1<<63) && f < 1<<64 {
+			// the library's id-normalising helper on the decoded float64 (outside this range it falls back to %g)
+			c.Emit(map[string]any{"c": "pending.key", "kind": "idKey", "side": "wire", "id": idJSON(n)}, map[string]any{"key": mcp.VerifRequestIDKey(f)}, boundary, "key-wire-idKey")
 		}
 		c.Emit(map[string]any{"c": "pending.key", "kind": "int64", "side": "wire", "id": idJSON(n)}, map[string]any{"key": strconv.FormatInt(int64(f), 10)}, boundary, "key-wire-int64")
 		c.Emit(map[string]any{"c": "pending.key", "kind": "uint64", "side": "wire", "id": idJSON(n)}, map[string]any{"key": strconv.FormatUint(uint64(f), 10)}, boundary, "key-wire-uint64")
@@ -147,10 +155,12 @@ func keyGrid(c *hk.Ctx) {
 		strs = append(strs, string(rs))
 	}
 	for _, s := range strs {
+		c.Emit(map[string]any{"c": "pending.key", "kind": "idKey", "side": "req", "id": map[string]any{"str": s}}, map[string]any{"key": mcp.VerifRequestIDKey(s)}, true, "key-req-string-idKey")
 		c.Emit(map[string]any{"c": "pending.key", "kind": "sprintfV", "side": "req", "id": map[string]any{"str": s}}, map[string]any{"key": fmt.Sprintf("%v", interface{}(s))}, true, "key-req-string")
 		b, _ := json.Marshal(s)
 		var v interface{}
 		json.Unmarshal(b, &v)
+		c.Emit(map[string]any{"c": "pending.key", "kind": "idKey", "side": "wire", "id": map[string]any{"str": s}}, map[string]any{"key": mcp.VerifRequestIDKey(v)}, true, "key-wire-string-idKey")
 		c.Emit(map[string]any{"c": "pending.key", "kind": "sprintfV", "side": "wire", "id": map[string]any{"str": s}}, map[string]any{"key": fmt.Sprintf("%v", v)}, true, "key-wire-string")
 		typ := "other"
 		if _, ok := v.(string); ok {
